@@ -5,7 +5,9 @@ set -u
 PATCH=$1; shift
 cd /repo; git diff --quiet || { echo "/repo not clean"; exit 2; }
 git apply $PATCH || exit 2
-trap 'git -C /repo checkout -- . ; git -C /repo status --short | head' EXIT
+# the evidence files describe clean-tree runs: keep them out of the way of the seeded run
+EVB=$(mktemp -d /tmp/evidence-backup.XXXXXX); cp -a /verif/evidence/. $EVB/
+trap 'git -C /repo checkout -- . ; git -C /repo status --short | head; cp -a $EVB/. /verif/evidence/; rm -rf $EVB' EXIT
 for p in "$@"; do
   /verif/check $p --tier ${TIER:-quick} > /tmp/seedrun.$p.log 2>&1; rc=$?
   echo "== $p exit=$rc"; grep -E '^(VIOLATION|KNOWN-FINDING)' /tmp/seedrun.$p.log | cut -c1-400
